@@ -65,6 +65,12 @@ INPUTS = [
         'vThr OBJECT-TYPE SYNTAX Threshold MAX-ACCESS read-write STATUS current DESCRIPTION "d" DEFVAL { \'0aff\'h } ::= { enterprises 91 }\n'
         'vMode OBJECT-TYPE SYNTAX Mode MAX-ACCESS read-write STATUS current DESCRIPTION "d" DEFVAL { auto } ::= { enterprises 92 }',
         'IMPORTS OBJECT-TYPE, enterprises, Integer32 FROM SNMPv2-SMI TEXTUAL-CONVENTION FROM SNMPv2-TC;\n')),
+    # one file holding two modules, the second hanging its OIDs under a node imported from the first; in the other version the
+    # first module puts that node elsewhere: anything remembered about IMPORTED symbols must not survive into the next call
+    ('pairA', 'PAIR-FILE', M('VBASE-MIB', 'vRoot OBJECT IDENTIFIER ::= { enterprises 99999 }', 'IMPORTS enterprises FROM SNMPv2-SMI;\n') +
+                          M('VUSER-MIB', 'vLeaf OBJECT IDENTIFIER ::= { vRoot 7 }\nvLeaf2 OBJECT IDENTIFIER ::= { vLeaf 1 }', 'IMPORTS vRoot FROM VBASE-MIB;\n')),
+    ('pairB', 'PAIR-FILE', M('VBASE-MIB', 'vRoot OBJECT IDENTIFIER ::= { enterprises 424242 }', 'IMPORTS enterprises FROM SNMPv2-SMI;\n') +
+                          M('VUSER-MIB', 'vLeaf OBJECT IDENTIFIER ::= { vRoot 7 }\nvLeaf2 OBJECT IDENTIFIER ::= { vLeaf 1 }', 'IMPORTS vRoot FROM VBASE-MIB;\n')),
 ]
 INPUT_BY = {k: (n, t) for k, n, t in INPUTS}
 KINDS = ['parser', 'parserV2', 'symtable', 'json', 'pysnmp', 'compiler', 'sameast']
